@@ -7,7 +7,7 @@ use parol_runtime::LRParser;
 static SKIP: &[&[u16]] = &[&[30]];
 
 fn decorate(rng: &mut Rng, s: &[u16]) -> String {
-    let seps = [" ", " ", "\n", "\r\n", "\t ", " // c\n", " /* c */ ", " # ", " é ", " z ", "  z z ", " /* a\n b */", " \r", " 9 "];
+    let seps = [" ", " ", "\n", "\r\n", "\t ", " // c\n", " /* c */ ", " # ", " é ", " z ", "  z z ", " /* a\n b */", " \r", " 9 ", " z\n", " z /* c */ ", "\nz z z "];
     let mut t = String::new();
     if rng.chance(1, 3) { t.push_str(seps[rng.below(seps.len())]); }
     for (i, x) in s.iter().enumerate() {
